@@ -3,6 +3,7 @@ package poolx
 import (
 	"bytes"
 	"fmt"
+	"os"
 	"runtime"
 	"sort"
 	"time"
@@ -19,6 +20,8 @@ type BurstResult struct {
 	Leaked   int   // goroutines still inside pkg/upstream/transport some time after Close
 	Blocked  int   // queries that had not returned some time after Close
 }
+
+var dumped bool
 
 func transportGoroutines() int {
 	buf := make([]byte, 1<<20)
@@ -43,6 +46,16 @@ func Burst(pipeline bool, limit, n, late int) BurstResult {
 	for settle := time.Now().Add(time.Second); base > 0 && time.Now().Before(settle); {
 		time.Sleep(5 * time.Millisecond)
 		base = transportGoroutines()
+	}
+	if base > 0 && os.Getenv("VERIF_DUMP_LEAK") != "" && !dumped {
+		dumped = true
+		buf := make([]byte, 1<<20)
+		k := runtime.Stack(buf, true)
+		for _, g := range bytes.Split(buf[:k], []byte("\n\n")) {
+			if bytes.Contains(g, []byte("mosdns/v5/pkg/upstream/transport.")) {
+				fmt.Fprintf(os.Stderr, "LEFTOVER GOROUTINE before burst:\n%s\n\n", g)
+			}
+		}
 	}
 	plans := make([]ConnPlan, 0, n+late+2)
 	for i := 0; i < n+2; i++ {
